@@ -44,6 +44,7 @@ deep = copy_file('links/deep/d.txt', gen, mode='symlink')
 stamp = build_step('now.txt', cmd=['touch', 'now.txt'], always_outdated=True)
 pair = build_step(['p1.txt', 'p2.txt'], cmd=['touch', 'p1.txt', 'p2.txt'], always_outdated=True)
 table = build_step('table.txt', cmds=[['cp', source_file('table.in'), 'table.txt'], ['touch', 'table.txt']])
+viaprog = build_step('viaprog.txt', cmd=[t, build_step.input, build_step.output], files=['in.txt'])
 report = build_step('report.txt', cmd=['sh', tool, '--from=' + gen, build_step.output])
 vers = shared_library('vers', files=['s2.c'], version='1.2.3', soversion='1')
 test(t)
@@ -58,6 +59,7 @@ GRAPH_C = {
     'prog': {'prog.int/s.o', 'prog.int/main.o', 'libfoo.a'},
     'prog.int/main.o': {'{src}/main.c', '{src}/api.h', 'gen.h'}, 'prog.int/s.o': {'{src}/s.c', '{src}/api.h', 'gen.h'},
     'table.txt': {'{src}/table.in'},    # a file named in the first of two command lines
+    'viaprog.txt': {'{src}/in.txt', 't'},   # the program of a step is a program built by the project
     'all': {'prog', 'libfoo.a', 'libvers.so'},   # programs and libraries (by their public name) that are not test-only
     'tests': {'t'},
     'report.txt': {'tool.sh', 'gen.txt'},   # a file named inside a command word (`'--from=' + file`); checked last (known finding)
@@ -170,7 +172,8 @@ def split_and(line):
 
 
 def canon(argv):
-    return tuple(norm_path(a) for a in argv if a != '-fdiagnostics-color')
+    # (the program word keeps a leading `./`: `./prog` and `prog` are not the same program)
+    return tuple(a if i == 0 else norm_path(a) for i, a in enumerate(x for x in argv if x != '-fdiagnostics-color'))
 
 
 class CrossBackend(Bounded):
